@@ -41,4 +41,10 @@ GetNoise(m, k, g) ==
   IF k \notin Kinds THEN <<m, "KeyError", <<>>>>
   ELSE LET tot == SumP(m[k][g].l) IN
        <<m, "", IF tot = 0 THEN <<>> ELSE Append(m[k][g].l, [id |-> "NoNoise", p |-> One - tot])>>
+\* what a Monte-Carlo draw for one gate may return: a listed noise with positive probability, or no noise when the
+\* listed probabilities leave room for it (a gate that is not listed, or listed with nothing, gets no noise)
+Allowed(m, k, g) ==
+  IF ~m[k][g].has THEN {"NoNoise"}
+  ELSE {m[k][g].l[i].id : i \in {j \in DOMAIN m[k][g].l : m[k][g].l[j].p > 0}}
+       \cup (IF SumP(m[k][g].l) < One THEN {"NoNoise"} ELSE {})
 =============================================================================
